@@ -367,6 +367,170 @@ theorem LoopInv.same_fs {st st' : St σ κ} {tr : List (Comps × Nat)} {e : OldE
   · subst hp; exact Or.inr ⟨rfl, hent k' hm⟩
   · exact Or.inl ⟨hm, hp⟩
 
+theorem LoopInv.of_same {st st' : St σ κ} {tr : List (Comps × Nat)} {es : List (OldEntry σ)}
+    (h : LoopInv Unt new st tr es) (h1 : st'.fs = st.fs) (h2 : st'.wsMissing = st.wsMissing)
+    (h3 : st'.nextAttic = st.nextAttic) : LoopInv Unt new st' tr es :=
+  ⟨by rw [h1]; exact h.ent, by rw [h1]; exact h.nodup, by rw [h1]; exact h.trk, by rw [h1, h2]; exact h.missing,
+   by intro n p k hm; rw [h1] at hm; rw [h3]; exact h.below n p k hm, h.inj⟩
+
+theorem changedStep_inv (hc : ScmConv sem fresh Unt)
+    (ae : Bool) (st st' : St σ κ) (tr tr' : List (Comps × Nat)) (e : OldEntry σ) (es : List (OldEntry σ))
+    (hl : changedStep sem ae new st tr e = .ok (st', tr'))
+    (h : LoopInv Unt new st tr (e :: es)) : LoopInv Unt new st' tr' es := by
+  have hbelow : AtticBelow st' := (ext_changedStep (sem := sem) (new := new) ae st st' tr tr' e hl).2.1 h.below
+  unfold changedStep at hl
+  simp only at hl
+  obtain ⟨⟨hold, hws, hpl, hna⟩, hcase⟩ := trySwitch_cases sem new e (normComps e.dir) st
+  by_cases hok : (trySwitch sem new e (normComps e.dir) st).2 = true
+  · -- the inline switch succeeded
+    simp only [hok, if_true] at hl
+    rcases hcase with ⟨_, hf⟩ | ⟨n, os, k, hn, hs, hk, hfs, hres⟩
+    · rw [hf] at hok; cases hok
+    · simp only [hn, Except.ok.injEq, Prod.mk.injEq] at hl
+      obtain ⟨hl1, hl2⟩ := hl
+      subst hl2
+      have hfs' : st'.fs = setContent st.fs (.ws (normComps e.dir)) (sem.switch os n.spec k).1 := by
+        rw [← hl1, fs_persist]; exact hfs
+      have hw' : st'.wsMissing = st.wsMissing := by rw [← hl1]; exact hws
+      have hkm := contentAt_some_mem hk
+      obtain ⟨s, hs', hu⟩ := h.at_head hkm
+      rw [hs] at hs'; cases hs'
+      have hfresh : (sem.switch os n.spec k).1 = fresh n.spec := hc.switch_unt os n.spec k hu (by rw [← hres]; exact hok)
+      obtain ⟨hnm, hnd⟩ := findNew_mem hn
+      refine h.consume ?_ (by rw [hfs']; exact nodup_setContent h.nodup _ _) ?_ ?_ hbelow
+      · intro p' k' hm'
+        rw [hfs'] at hm'
+        rcases mem_setContent_nodup h.nodup hm' with ⟨h1, h2⟩ | ⟨h1, h2⟩
+        · right
+          cases h1
+          refine ⟨rfl, n, hnm, by rw [hnd], ?_⟩
+          rw [h2, hfresh]; exact hc.fresh_unt _
+        · left
+          exact ⟨h1, fun hp => h2 (by rw [hp])⟩
+      · intro q m hqm p' k' hm'
+        rw [hfs'] at hm'
+        rcases mem_setContent_nodup h.nodup hm' with ⟨h1, _⟩ | ⟨h1, _⟩
+        · cases h1
+          exact h.trk q m hqm _ k hkm
+        · exact h.trk q m hqm p' k' h1
+      · intro hmiss
+        rw [hw'] at hmiss
+        exact absurd hkm (h.missing hmiss _ k)
+  · -- no switch or it failed
+    have hok' : (trySwitch sem new e (normComps e.dir) st).2 = false := by simpa using hok
+    simp only [hok', Bool.false_eq_true, if_false] at hl
+    have hex := existsWs_trySwitch sem new e (normComps e.dir) (normComps e.dir) st
+    -- entries of the state after the attempt: the old ones, possibly with new content at e's path
+    have hsub : ∀ p' k', (Loc.ws p', k') ∈ (trySwitch sem new e (normComps e.dir) st).1.fs →
+        p' ≠ normComps e.dir → (Loc.ws p', k') ∈ st.fs := by
+      intro p' k' hm' hne
+      rcases hcase with ⟨hf, _⟩ | ⟨n, os, k, _, _, _, hfs, _⟩
+      · rw [hf] at hm'; exact hm'
+      · rw [hfs] at hm'
+        rcases mem_setContent_nodup h.nodup hm' with ⟨h1, _⟩ | ⟨h1, _⟩
+        · cases h1; exact absurd rfl hne
+        · exact h1
+    have hnd : (locs (trySwitch sem new e (normComps e.dir) st).1.fs).Nodup := by
+      rcases hcase with ⟨hf, _⟩ | ⟨n, os, k, _, _, _, hfs, _⟩
+      · rw [hf]; exact h.nodup
+      · rw [hfs]; exact nodup_setContent h.nodup _ _
+    have hwsub : ∀ p' k', (Loc.ws p', k') ∈ (trySwitch sem new e (normComps e.dir) st).1.fs →
+        ∃ k0, (Loc.ws p', k0) ∈ st.fs := by
+      intro p' k' hm'
+      rcases hcase with ⟨hf, _⟩ | ⟨n, os, k, _, _, hk, hfs, _⟩
+      · rw [hf] at hm'; exact ⟨k', hm'⟩
+      · rw [hfs] at hm'
+        rcases mem_setContent_nodup h.nodup hm' with ⟨h1, _⟩ | ⟨h1, _⟩
+        · cases h1; exact ⟨k, contentAt_some_mem hk⟩
+        · exact ⟨k', h1⟩
+    by_cases hexs : existsWs (trySwitch sem new e (normComps e.dir) st).1 (normComps e.dir) = true
+    · simp only [hexs, if_true] at hl
+      cases ae with
+      | false => simp at hl
+      | true =>
+        simp only [Bool.not_true, Bool.false_eq_true, if_false, Except.ok.injEq, Prod.mk.injEq] at hl
+        obtain ⟨hl1, hl2⟩ := hl
+        -- moved to the attic
+        have hfs' : st'.fs = (trySwitch sem new e (normComps e.dir) st).1.fs.map
+            (fun x => (moveLoc (normComps e.dir) (trySwitch sem new e (normComps e.dir) st).1.nextAttic x.1, x.2)) := by
+          rw [← hl1, fs_dropOld]; simp [moveAway, emit, applyOp]
+        have hwsm : st'.wsMissing = (st.wsMissing || (normComps e.dir).isEmpty) := by
+          rw [← hl1]; simp [dropOld, persist, moveAway, emit, hws]
+        have hws_ent : ∀ p' k', (Loc.ws p', k') ∈ st'.fs →
+            (Loc.ws p', k') ∈ (trySwitch sem new e (normComps e.dir) st).1.fs ∧ isPrefix (normComps e.dir) p' = false := by
+          intro p' k' hm'
+          rw [hfs', List.mem_map] at hm'
+          obtain ⟨⟨l0, k0⟩, hm0, he0⟩ := hm'
+          simp only [Prod.mk.injEq] at he0
+          obtain ⟨he1, he2⟩ := he0
+          subst he2
+          cases l0 with
+          | attic m r => simp [moveLoc] at he1
+          | ws r =>
+            by_cases hr : isPrefix (normComps e.dir) r = true
+            · simp [moveLoc, hr] at he1
+            · simp only [moveLoc, hr, Bool.false_eq_true, if_false, Loc.ws.injEq] at he1
+              subst he1
+              exact ⟨hm0, by simpa using hr⟩
+        refine h.consume ?_ ?_ ?_ ?_ hbelow
+        · intro p' k' hm'
+          obtain ⟨h1, h2⟩ := hws_ent p' k' hm'
+          have hne : p' ≠ normComps e.dir := by
+            intro hp; rw [hp, isPrefix_refl] at h2; cases h2
+          exact Or.inl ⟨hsub p' k' h1 hne, hne⟩
+        · rw [hfs']
+          apply nodup_move hnd
+          intro m q k hmq
+          rw [hna]
+          rcases hcase with ⟨hf, _⟩ | ⟨n, os, k1, _, _, _, hfs, _⟩
+          · rw [hf] at hmq; exact h.below m q k hmq
+          · rw [hfs] at hmq
+            rcases mem_setContent_inv hmq with h1 | h1
+            · exact h.below m q k h1
+            · cases h1
+        · intro q m hqm p' k' hm'
+          obtain ⟨h1, h2⟩ := hws_ent p' k' hm'
+          rw [← hl2] at hqm
+          rcases mem_trackerAdd hqm with h3 | h3
+          · obtain ⟨k0, hk0⟩ := hwsub p' k' h1
+            exact h.trk q m h3 p' k0 hk0
+          · rw [h3]; exact h2
+        · intro hmiss p' k' hm'
+          obtain ⟨h1, h2⟩ := hws_ent p' k' hm'
+          rw [hwsm, Bool.or_eq_true] at hmiss
+          rcases hmiss with hm1 | hm1
+          · obtain ⟨k0, hk0⟩ := hwsub p' k' h1
+            exact h.missing hm1 p' k0 hk0
+          · have : normComps e.dir = [] := by simpa using hm1
+            rw [this] at h2
+            simp [isPrefix] at h2
+    · -- the directory does not exist: only the state entry is dropped
+      have hexs0 : existsWs (trySwitch sem new e (normComps e.dir) st).1 (normComps e.dir) = false := by simpa using hexs
+      simp only [hexs0, Bool.false_eq_true, if_false, Except.ok.injEq, Prod.mk.injEq] at hl
+      obtain ⟨hl1, hl2⟩ := hl
+      subst hl2
+      have hexs' : existsWs st (normComps e.dir) = false := by
+        rw [← hex]; simpa using hexs
+      -- no attempt was made (it needs the directory), so nothing changed
+      have hsame : (trySwitch sem new e (normComps e.dir) st).1.fs = st.fs := by
+        rcases hcase with ⟨hf, _⟩ | ⟨n, os, k, _, _, hk, _, _⟩
+        · exact hf
+        · exfalso
+          have hkm := contentAt_some_mem hk
+          rcases existsWs_false hexs' with h1 | h1
+          · exact h.missing h1 _ k hkm
+          · have := h1 _ k hkm
+            rw [isPrefix_refl] at this; cases this
+      have hfs' : st'.fs = st.fs := by rw [← hl1, fs_dropOld]; exact hsame
+      have hw' : st'.wsMissing = st.wsMissing := by rw [← hl1]; exact hws
+      refine h.same_fs hfs' hw' hbelow ?_
+      intro k' hk'
+      exfalso
+      rcases existsWs_false hexs' with h1 | h1
+      · exact h.missing h1 _ k' hk'
+      · have := h1 _ k' hk'
+        rw [isPrefix_refl] at this; cases this
+
 theorem loopStep_inv (hc : ScmConv sem fresh Unt)
     (hdig : ∀ (e : OldEntry σ) n, n ∈ new → e.dir = n.dir → e.digest = some n.digest →
       ∀ s k, e.spec = some s → Unt s k → Unt n.spec k)
@@ -405,156 +569,8 @@ theorem loopStep_inv (hc : ScmConv sem fresh Unt)
       exact ⟨n, hnm, by rw [hnd], hdig e n hnm hnd.symm hd s k' hs hu⟩
     · have hun' : unchanged new e = false := by simpa using hun
       simp only [hun', Bool.false_eq_true, if_false] at hl
-      obtain ⟨⟨hold, hws, hpl, hna⟩, hcase⟩ := trySwitch_cases sem new e (normComps e.dir) st
-      by_cases hok : (trySwitch sem new e (normComps e.dir) st).2 = true
-      · -- the inline switch succeeded
-        simp only [hok, if_true] at hl
-        rcases hcase with ⟨_, hf⟩ | ⟨n, os, k, hn, hs, hk, hfs, hres⟩
-        · rw [hf] at hok; cases hok
-        · simp only [hn, Except.ok.injEq, Prod.mk.injEq] at hl
-          obtain ⟨hl1, hl2⟩ := hl
-          subst hl2
-          have hfs' : st'.fs = setContent st.fs (.ws (normComps e.dir)) (sem.switch os n.spec k).1 := by
-            rw [← hl1, fs_persist]; exact hfs
-          have hw' : st'.wsMissing = st.wsMissing := by rw [← hl1]; exact hws
-          have hkm := contentAt_some_mem hk
-          obtain ⟨s, hs', hu⟩ := h.at_head hkm
-          rw [hs] at hs'; cases hs'
-          have hfresh : (sem.switch os n.spec k).1 = fresh n.spec := hc.switch_unt os n.spec k hu (by rw [← hres]; exact hok)
-          obtain ⟨hnm, hnd⟩ := findNew_mem hn
-          refine h.consume ?_ (by rw [hfs']; exact nodup_setContent h.nodup _ _) ?_ ?_ hbelow
-          · intro p' k' hm'
-            rw [hfs'] at hm'
-            rcases mem_setContent_nodup h.nodup hm' with ⟨h1, h2⟩ | ⟨h1, h2⟩
-            · right
-              cases h1
-              refine ⟨rfl, n, hnm, by rw [hnd], ?_⟩
-              rw [h2, hfresh]; exact hc.fresh_unt _
-            · left
-              exact ⟨h1, fun hp => h2 (by rw [hp])⟩
-          · intro q m hqm p' k' hm'
-            rw [hfs'] at hm'
-            rcases mem_setContent_nodup h.nodup hm' with ⟨h1, _⟩ | ⟨h1, _⟩
-            · cases h1
-              exact h.trk q m hqm _ k hkm
-            · exact h.trk q m hqm p' k' h1
-          · intro hmiss
-            rw [hw'] at hmiss
-            exact absurd hkm (h.missing hmiss _ k)
-      · -- no switch or it failed
-        have hok' : (trySwitch sem new e (normComps e.dir) st).2 = false := by simpa using hok
-        simp only [hok', Bool.false_eq_true, if_false] at hl
-        have hex := existsWs_trySwitch sem new e (normComps e.dir) (normComps e.dir) st
-        -- entries of the state after the attempt: the old ones, possibly with new content at e's path
-        have hsub : ∀ p' k', (Loc.ws p', k') ∈ (trySwitch sem new e (normComps e.dir) st).1.fs →
-            p' ≠ normComps e.dir → (Loc.ws p', k') ∈ st.fs := by
-          intro p' k' hm' hne
-          rcases hcase with ⟨hf, _⟩ | ⟨n, os, k, _, _, _, hfs, _⟩
-          · rw [hf] at hm'; exact hm'
-          · rw [hfs] at hm'
-            rcases mem_setContent_nodup h.nodup hm' with ⟨h1, _⟩ | ⟨h1, _⟩
-            · cases h1; exact absurd rfl hne
-            · exact h1
-        have hnd : (locs (trySwitch sem new e (normComps e.dir) st).1.fs).Nodup := by
-          rcases hcase with ⟨hf, _⟩ | ⟨n, os, k, _, _, _, hfs, _⟩
-          · rw [hf]; exact h.nodup
-          · rw [hfs]; exact nodup_setContent h.nodup _ _
-        have hwsub : ∀ p' k', (Loc.ws p', k') ∈ (trySwitch sem new e (normComps e.dir) st).1.fs →
-            ∃ k0, (Loc.ws p', k0) ∈ st.fs := by
-          intro p' k' hm'
-          rcases hcase with ⟨hf, _⟩ | ⟨n, os, k, _, _, hk, hfs, _⟩
-          · rw [hf] at hm'; exact ⟨k', hm'⟩
-          · rw [hfs] at hm'
-            rcases mem_setContent_nodup h.nodup hm' with ⟨h1, _⟩ | ⟨h1, _⟩
-            · cases h1; exact ⟨k, contentAt_some_mem hk⟩
-            · exact ⟨k', h1⟩
-        by_cases hexs : existsWs (trySwitch sem new e (normComps e.dir) st).1 (normComps e.dir) = true
-        · simp only [hexs, if_true] at hl
-          cases ae with
-          | false => simp at hl
-          | true =>
-            simp only [Bool.not_true, Bool.false_eq_true, if_false, Except.ok.injEq, Prod.mk.injEq] at hl
-            obtain ⟨hl1, hl2⟩ := hl
-            -- moved to the attic
-            have hfs' : st'.fs = (trySwitch sem new e (normComps e.dir) st).1.fs.map
-                (fun x => (moveLoc (normComps e.dir) (trySwitch sem new e (normComps e.dir) st).1.nextAttic x.1, x.2)) := by
-              rw [← hl1, fs_dropOld]; simp [moveAway, emit, applyOp]
-            have hwsm : st'.wsMissing = (st.wsMissing || (normComps e.dir).isEmpty) := by
-              rw [← hl1]; simp [dropOld, persist, moveAway, emit, hws]
-            have hws_ent : ∀ p' k', (Loc.ws p', k') ∈ st'.fs →
-                (Loc.ws p', k') ∈ (trySwitch sem new e (normComps e.dir) st).1.fs ∧ isPrefix (normComps e.dir) p' = false := by
-              intro p' k' hm'
-              rw [hfs', List.mem_map] at hm'
-              obtain ⟨⟨l0, k0⟩, hm0, he0⟩ := hm'
-              simp only [Prod.mk.injEq] at he0
-              obtain ⟨he1, he2⟩ := he0
-              subst he2
-              cases l0 with
-              | attic m r => simp [moveLoc] at he1
-              | ws r =>
-                by_cases hr : isPrefix (normComps e.dir) r = true
-                · simp [moveLoc, hr] at he1
-                · simp only [moveLoc, hr, Bool.false_eq_true, if_false, Loc.ws.injEq] at he1
-                  subst he1
-                  exact ⟨hm0, by simpa using hr⟩
-            refine h.consume ?_ ?_ ?_ ?_ hbelow
-            · intro p' k' hm'
-              obtain ⟨h1, h2⟩ := hws_ent p' k' hm'
-              have hne : p' ≠ normComps e.dir := by
-                intro hp; rw [hp, isPrefix_refl] at h2; cases h2
-              exact Or.inl ⟨hsub p' k' h1 hne, hne⟩
-            · rw [hfs']
-              apply nodup_move hnd
-              intro m q k hmq
-              rw [hna]
-              rcases hcase with ⟨hf, _⟩ | ⟨n, os, k1, _, _, _, hfs, _⟩
-              · rw [hf] at hmq; exact h.below m q k hmq
-              · rw [hfs] at hmq
-                rcases mem_setContent_inv hmq with h1 | h1
-                · exact h.below m q k h1
-                · cases h1
-            · intro q m hqm p' k' hm'
-              obtain ⟨h1, h2⟩ := hws_ent p' k' hm'
-              rw [← hl2] at hqm
-              rcases mem_trackerAdd hqm with h3 | h3
-              · obtain ⟨k0, hk0⟩ := hwsub p' k' h1
-                exact h.trk q m h3 p' k0 hk0
-              · rw [h3]; exact h2
-            · intro hmiss p' k' hm'
-              obtain ⟨h1, h2⟩ := hws_ent p' k' hm'
-              rw [hwsm, Bool.or_eq_true] at hmiss
-              rcases hmiss with hm1 | hm1
-              · obtain ⟨k0, hk0⟩ := hwsub p' k' h1
-                exact h.missing hm1 p' k0 hk0
-              · have : normComps e.dir = [] := by simpa using hm1
-                rw [this] at h2
-                simp [isPrefix] at h2
-        · -- the directory does not exist: only the state entry is dropped
-          have hexs0 : existsWs (trySwitch sem new e (normComps e.dir) st).1 (normComps e.dir) = false := by simpa using hexs
-          simp only [hexs0, Bool.false_eq_true, if_false, Except.ok.injEq, Prod.mk.injEq] at hl
-          obtain ⟨hl1, hl2⟩ := hl
-          subst hl2
-          have hexs' : existsWs st (normComps e.dir) = false := by
-            rw [← hex]; simpa using hexs
-          -- no attempt was made (it needs the directory), so nothing changed
-          have hsame : (trySwitch sem new e (normComps e.dir) st).1.fs = st.fs := by
-            rcases hcase with ⟨hf, _⟩ | ⟨n, os, k, _, _, hk, _, _⟩
-            · exact hf
-            · exfalso
-              have hkm := contentAt_some_mem hk
-              rcases existsWs_false hexs' with h1 | h1
-              · exact h.missing h1 _ k hkm
-              · have := h1 _ k hkm
-                rw [isPrefix_refl] at this; cases this
-          have hfs' : st'.fs = st.fs := by rw [← hl1, fs_dropOld]; exact hsame
-          have hw' : st'.wsMissing = st.wsMissing := by rw [← hl1]; exact hws
-          refine h.same_fs hfs' hw' hbelow ?_
-          intro k' hk'
-          exfalso
-          rcases existsWs_false hexs' with h1 | h1
-          · exact h.missing h1 _ k' hk'
-          · have := h1 _ k' hk'
-            rw [isPrefix_refl] at this; cases this
+      exact changedStep_inv hc ae _ st' tr tr' e es hl
+        (h.of_same (fs_invalidate e st).1 (fs_invalidate e st).2.1 (fs_invalidate e st).2.2.1)
 
 theorem loopAll_inv (hc : ScmConv sem fresh Unt)
     (hdig : ∀ (e : OldEntry σ) n, n ∈ new → e.dir = n.dir → e.digest = some n.digest →
